@@ -123,6 +123,15 @@ def build() -> Check:
             bad.append(("a summarised context sends a record / re-serialises on replay", t))
         if t.outcome == "return" and not t.value.key().startswith("ret:func"):
             bad.append((f"replay returns {t.value.key()} instead of the rebuilt result", t))
+    # ... the entry query every operation asks (raise_if_in_orphaned_branch) is harmless for a re-traversal only if it judges the nearest OPEN enclosing
+    # context and looks through contexts recorded SUCCEEDED - evaluated on the code itself for small chains
+    from sa.common import branch_query_scenarios
+    bq16 = branch_query_scenarios(prog, pm)
+    wrong_pass = [f"{d}: {g}" for d, g, w in bq16 if w == "passes" and g != w]
+    if bq16:
+        ck.ob("R2.entry-query-lets-a-retraversal-pass", "state.py:ExecutionState.raise_if_in_orphaned_branch", not wrong_pass,
+              (f"{len(wrong_pass)}/{len(bq16)} scenarios: " + wrong_pass[0] + " - the healthy branch is dropped as orphaned work and the invocation never returns")
+              if wrong_pass else f"{sum(1 for _d, _g, w in bq16 if w == 'passes')} re-traversal scenarios")
     # ... and what a re-traversed body can legitimately find OPEN beneath its (completed) context are operations whose executor runs no user code and
     # does not wait for the outcome (a callback that was created and handed out but not awaited there): they are entered again on every re-traversal,
     # and - when the context completed in this invocation - sit beneath a context marked as done. A read-only orphan query has no user function to protect
